@@ -510,7 +510,7 @@ fn ops_brief(ops: &[Op]) -> String {
 
 /// fixed warm-up history #k (a fixed recurrence, identical in every run)
 fn warmup(k: usize, n: usize) -> Vec<Op> {
-    let mut x: u32 = 0xC0FF_EE00 ^ (k as u32 * 0x9E37_79B9);
+    let mut x: u32 = 0xC0FF_EE00 ^ (k as u32).wrapping_mul(0x9E37_79B9);
     let mut next = move || {
         x ^= x << 13;
         x ^= x >> 17;
@@ -710,9 +710,10 @@ pub fn run_c10(ctx: &Ctx, st: &mut Local) {
         let mut idx = 0u64;
         let mut ok = 0u64;
         let mut nodes = 0u64;
-        let maxrun: usize = if ctx.quick() { 70_000 } else { 200_000 };
+        let maxrun: usize = if ctx.quick() { 40_000 } else { 200_000 };
         let mut seq: Vec<Op> = Vec::with_capacity(maxrun + 8);
-        for n in 1..=maxrun {
+        let extra_runs: Vec<usize> = if ctx.quick() { vec![65_534, 65_535, 65_536, 65_537, 70_000, 98_301, 131_071, 131_072] } else { vec![262_143, 262_144, 300_000] };
+        for n in (1..=maxrun).chain(extra_runs.into_iter()) {
             let i = idx;
             idx += 1;
             if !ctx.sel.mine(i) {
@@ -772,7 +773,7 @@ pub fn run_c10(ctx: &Ctx, st: &mut Local) {
         e.traces += ok;
         e.nontrivial += ok;
         *e.outcomes.entry("lossless".into()).or_insert(0) += ok;
-        e.bound = format!("a default run of EVERY length 1..={} followed by a short tail; {} non-default operations each repeated n times for n in 1..=64 and around every power of two up to 2^17 (and multiples of 32767 and 10000), followed by a tail", maxrun, reps.len());
+        e.bound = format!("a default run of EVERY length 1..={} (plus a few longer ones around 2^16, 2^17 and multiples of 32767) followed by a short tail; {} non-default operations each repeated n times for n in 1..=64 and around every power of two up to 2^17 (and multiples of 32767 and 10000), followed by a tail", maxrun, reps.len());
         e.exhaustive = true;
         e.samples.push("defaults(32767) ++ [Value(16, 0x1234), Corr(3, 5), Mis(2, true)]".into());
     }
